@@ -29,7 +29,7 @@ for d in sorted(glob.glob(f'{R}/seeded/*/')):
     ev = m.get('evaluation', {})
     first = m.get('first_attempt', '')
     out.append('| %s | %s | %s | %s | %s | %s | %s |' % (os.path.basename(d[:-1]), m.get('property'), esc(m.get('summary', '')[:220]), esc(m.get('needs', '')[:200]),
-        'yes' if ev.get('confirmed') else 'no', ('%s tier: `%s`' % (ev.get('check', {}).get('tier'), esc((ev.get('check', {}).get('lines') or ['', ''])[1].replace('signature:', '').strip()))) if m.get('detected_by_check') else 'NOT detected', esc(first)))
+        'yes' if ev.get('confirmed') else 'no', ('%s tier: `%s`' % (ev.get('check', {}).get('tier'), esc(next((l for l in (ev.get('check', {}).get('lines') or []) if 'signature:' in l), '').replace('signature:', '').strip()))) if m.get('detected_by_check') else 'NOT detected', esc(first)))
 seed_tbl = '\n'.join(out)
 # per-check summary from claims + evidence
 out = ['| id | level | decided by | quick tier measured (last run) | seeded changes caught |', '|---|---|---|---|---|']
